@@ -41,6 +41,12 @@ def canon_error(e, with_accepts=True):
     for a in ('pos_in_stream', 'line', 'column'):
         v = getattr(e, a, None)
         out[a] = v if isinstance(v, (int, type(None), str)) else repr(v)
+    th = getattr(e, 'token_history', None)
+    if th is not None:
+        try:
+            out['token_history'] = [canon(t) for t in th]
+        except TypeError:
+            out['token_history'] = repr(th)
     if cn == 'UnexpectedToken':
         out['token'] = canon(e.token)
         out['expected'] = sorted(e.expected) if e.expected is not None else None
